@@ -66,8 +66,10 @@ def check(ctx):
     ctx.absorb(window_rules, "R7", only=lambda o: o.outcome != "MISSING")
     # a record is decoded from the record and the network's own tables only: no cache or memo shared across files / networks
     # of the process stands between them (shared with C17.R3)
-    from .c17 import discovered_state
+    from .c17 import discovered_state, krome_reset
     ctx.absorb(lambda sub: discovered_state(sub, package(sub.tree), "R8"), "R8", only=lambda o: o.outcome != "MISSING")
+    # the column layout a KROME file is decoded with is that file's own: directive state is reset before EVERY file (shared with C12.R4 / C17.R4)
+    krome_reset(ctx, pkg, "R9")
 
 
 # ------------------------------------------------------------------ R1
@@ -415,6 +417,9 @@ U = "naunet/reactions/umistreaction.py"
 UC = "naunet/reactions/uclchemreaction.py"
 L = "naunet/reactions/leedsreaction.py"
 MUTANTS = [
+    {"name": "initialize-skipped-for-continued-file", "edits": [
+        {"file": NET, "old": "    def add_reaction_from_file(self, filename: str | Path, format: str) -> None:", "new": "    def add_reaction_from_file(self, filename: str | Path, format: str, continued: bool = False) -> None:"},
+        {"file": NET, "old": "        if rclass:\n            rclass.initialize()\n        else:\n            raise RuntimeError(f\"Unknown format: {format}\")", "new": "        if not rclass:\n            raise RuntimeError(f\"Unknown format: {format}\")\n        elif not continued:\n            rclass.initialize()"}], "rules": ["R9"]},
     {"name": "pseudo-element-filter-cached-on-class", "edits": [
         {"file": "naunet/component.py", "old": "class Component:\n", "new": "class Component:\n    _pseudo_names = None\n"},
         {"file": "naunet/component.py", "old": "        if species_name and species_name not in Species.known_pseudoelements():", "new": "        if Component._pseudo_names is None:\n            Component._pseudo_names = frozenset(Species.known_pseudoelements())\n        if species_name and species_name not in Component._pseudo_names:"}], "rules": ["R8"]},
